@@ -8,6 +8,7 @@
      [6; ns; sp; sq; bd; b0n; b1n]            expanded taper codes of _freq_filter (si = sp/sq, b = bn/bd)
      [7; ns; is_complex]                      dft: number of output coefficients
      [8; b0n; b1n; xn]                        fcn_cosine taper code at x (integers over a common denominator)
+     [9; dx; dw]                              convolve: result dtype (0 float32, 1 float64, 2 integer) of operand dtypes
    output: see `run` (options as 0 / 1 :: payload, lists length-prefixed). *)
 From Coq Require Import ZArith List Bool.
 From IBL.lib Require Import PyInt RunLib.
@@ -25,6 +26,9 @@ Definition enc_pair (p : Z * Z) : list Z := [fst p; snd p].
 Definition enc_triple (t : Z * Z * Z) : list Z := let '(a, b, c) := t in [a; b; c].
 Definition gconj (p : Z * Z) : Z * Z := (fst p, - snd p).
 
+Definition dec_dtype (c : Z) : dtype := if c =? 0 then F32 else if c =? 1 then F64 else IntT.
+Definition enc_dtype (d : dtype) : Z := match d with F32 => 0 | F64 => 1 | IntT => 2 end.
+
 Definition run (inp : list Z) : list Z :=
   match inp with
   | [1; n] => enc_option (fun m => [m]) (ns_optim n)
@@ -41,6 +45,7 @@ Definition run (inp : list Z) : list Z :=
       enc_option (enc_list enc_triple) (freq_response ns sp sq bd b0n b1n)
   | [7; ns; c] => [dft_nk ns (c =? 1)]
   | [8; b0n; b1n; xn] => enc_triple (taper_code b0n b1n xn)
+  | [9; dx; dw] => [enc_dtype (conv_result_dtype (dec_dtype dx) (dec_dtype dw))]
   | _ => [-999]
   end.
 
